@@ -104,6 +104,34 @@ func rawFor(kind, uname, size string, seed int64) []RawKey {
 		if uname == "tupleq" {
 			n = 9
 		}
+		if uname == "tuplelong" {
+			// tuples whose encodings share 16 bytes (far beyond the inline limit); probes differ from stored tuples only
+			// inside the non-inlined part of that path (byte 12) and have the same tail
+			w := 0
+			for _, f := range s.Fields {
+				w += fieldWidth[f]
+			}
+			mk := func(mid, last byte, probe bool) RawKey {
+				k := make([]byte, w)
+				for i := range k {
+					k[i] = byte(0x30 + i)
+				}
+				if w > 12 {
+					k[12] = mid
+				}
+				k[w-1] = last
+				return RawKey{B: k, Probe: probe}
+			}
+			var u []RawKey
+			for _, l := range []byte{1, 2, 3, 4} {
+				u = append(u, mk(0x3c, l, false))
+			}
+			for _, l := range []byte{1, 2} {
+				u = append(u, mk(0x5a, l, true))
+			}
+			u = append(u, mk(0x3c, 9, true))
+			return u
+		}
 		if uname == "tuplefan" {
 			// the first byte of the encoding takes all 256 values (0xFF included), the rest is fixed: one 256-way root
 			var u []RawKey
@@ -138,6 +166,18 @@ func rawFor(kind, uname, size string, seed int64) []RawKey {
 			return u[:min(len(u), 11)]
 		case "fan1", "fan2", "fanb", "fan18", "fan64":
 			return Universe(uname, size, seed)
+		case "fanp64":
+			// 64 values of the last byte below a fixed path: short fill/drain cycles of a 256-class node WITH a compressed path
+			var u []RawKey
+			fixed := []byte{0xab, 0xcd, 0xef, 0x01, 0x23, 0x45, 0x67}
+			for i := 0; i < 64; i++ {
+				b := byte(i*4 + i%4)
+				if i == 63 {
+					b = 0xff
+				}
+				u = append(u, RawKey{B: append(append([]byte{}, fixed[:w-1]...), b)})
+			}
+			return u
 		case "fanp":
 			// all 256 values of the last byte below a fixed w-1 byte path: a 256-class node WITH a compressed path
 			var u []RawKey
